@@ -398,13 +398,21 @@ def check(tier):
             if c["c"] == "gate":
                 if tier == "quick" and c["plugin"] == "testdata" and c["kind"] != "missing_required_key":
                     return [], c       # testdata runs 20+ s when the gate lets a model through; thorough runs all
+                if c["position"] != "only" and (c["plugin"] not in ("probe", "python") or c["target"] not in ("property", "typeAlias", "request")):
+                    return [], c       # multi-file positions: a covering subset
                 bad = bad_edit(trim if c["plugin"] != "testdata" else trim, c["kind"], c["target"])
                 if bad is None:
                     return [], c
                 inv = schema_invalid(bad)
                 f = wfile(bad, "bad-%s.json" % tag)
-                rcode, rb, changed = run_cli([f], c["plugin"], work, tag)
-                return [{"e": "Gate", "kind": c["kind"], "target": c["target"], "plugin": c["plugin"], "schema_invalid": inv,
+                files = [f]
+                if c["position"] != "only":
+                    ext = {"metaData": {"version": "0.0.1-ext"}, "requests": [], "notifications": [], "enumerations": [], "typeAliases": [],
+                           "structures": [{"name": "VerifExt", "properties": [{"name": "x", "type": {"kind": "base", "name": "string"}}]}]}
+                    g = wfile(ext, "good-%s.json" % tag)
+                    files = [f, g] if c["position"] == "first" else [g, f]
+                rcode, rb, changed = run_cli(files, c["plugin"], work, tag)
+                return [{"e": "Gate", "kind": c["kind"] + ("" if c["position"] == "only" else "@" + c["position"]), "target": c["target"], "plugin": c["plugin"], "schema_invalid": inv,
                          "exit": rcode if rcode >= 0 else 255, "invoked": rb is not None, "changed": changed}], c
             return [], c
 
